@@ -12,7 +12,7 @@ static void factor_probes(const V &v, const X &x) {
   if (ve > vs && xe > xs + 1 && ve - 1 >= xs && ve < xe) probe(PR_FACTOR_INSIDE);
 }
 
-static const SpOpV *ref_oper_ex(ExecCtx &c, uint32_t arg, const Grid **og) {
+static const SpOpV *ref_oper_ex(ExecCtx &c, uint32_t arg, const Grid **og, bool *dirty = nullptr, int *src = nullptr) {
   Pool *sh = &c.pool == &c.w.shared ? nullptr : &c.w.shared;
   size_t n1 = c.pool.o.size(), n = n1 + (sh ? sh->o.size() : 0);
   for (size_t k = 0; k < n; k++) {
@@ -21,6 +21,8 @@ static const SpOpV *ref_oper_ex(ExecCtx &c, uint32_t arg, const Grid **og) {
     size_t j = i < n1 ? i : i - n1;
     if (p.o[j]) {
       *og = p.og[j] ? &*p.og[j] : nullptr;
+      if (dirty) *dirty = p.osrc_dirty[j];
+      if (src) *src = (&p == &c.pool) ? p.osrc[j] : -1;
       return &*p.o[j];
     }
   }
@@ -86,6 +88,7 @@ bool exec_apply(ExecCtx &c) {
                 } catch (const std::exception &) {
                 }
               }
+              if (has_int && !same) sim::g_cur->note = 1;
               libcall(out, [&] {
                 with_factor_recipe(r, v, [&](auto &&o) {
                   auto res = o * x;
@@ -105,6 +108,9 @@ bool exec_apply(ExecCtx &c) {
       const SpV *vs = ref_sp_maxorder(c, op.b, MAXFACT);
       if (!vs) return true;
       int dst = op.a % NO;
+      int srcslot = -1;
+      for (int i = 0; i < NP; i++)
+        if (P.p[i] && &*P.p[i] == vs) srcslot = SLOT_P0 + i;
       std::visit(
           [&](const auto &v) {
             using V = std::decay_t<decltype(v)>;
@@ -115,6 +121,8 @@ bool exec_apply(ExecCtx &c) {
                 sim::Exempt e;
                 P.o[dst].emplace(std::in_place_type<SpOp<V::spline_order>>, std::move(*tmp));
                 P.og[dst].emplace(v.getSupport().getGrid());
+                P.osrc[dst] = srcslot;
+                P.osrc_dirty[dst] = false;
                 out.target = SLOT_O0 + dst;
               }
               sim::LibRegion lr;
@@ -126,7 +134,9 @@ bool exec_apply(ExecCtx &c) {
     }
     case OP_O_HELD_COPY: {
       const Grid *og = nullptr;
-      const SpOpV *src = ref_oper_ex(c, op.b, &og);
+      bool sdirty = false;
+      int ssrc = -1;
+      const SpOpV *src = ref_oper_ex(c, op.b, &og, &sdirty, &ssrc);
       if (!src) return true;
       int dst = op.a % NO;
       std::optional<SpOpV> tmp;
@@ -137,6 +147,8 @@ bool exec_apply(ExecCtx &c) {
         if (og) g2.emplace(*og);
         P.o[dst].emplace(std::move(*tmp));
         if (g2) P.og[dst].emplace(*g2); else P.og[dst].reset();
+        P.osrc[dst] = ssrc;
+        P.osrc_dirty[dst] = sdirty;
         out.target = SLOT_O0 + dst;
       }
       sim::LibRegion lr;
@@ -155,9 +167,11 @@ bool exec_apply(ExecCtx &c) {
     }
     case OP_O_HELD_APPLY: {
       const Grid *og = nullptr;
-      const SpOpV *o = ref_oper_ex(c, op.b, &og);
+      bool odirty = false;
+      const SpOpV *o = ref_oper_ex(c, op.b, &og, &odirty);
       const SpV *xs = ref_sp(c, op.c);
       if (!o || !xs) return true;
+      if (odirty) og = nullptr;  // source modified since the hold: no C08 expectation
       int dst = op.a % NP;
       std::visit(
           [&](const auto &oper, const auto &x) {
@@ -168,6 +182,7 @@ bool exec_apply(ExecCtx &c) {
               has_int = x.getSupport().numberOfIntervals() > 0;
             }
             if (has_int && og) c08_note(E_HELD_APPLY, x.getSupport().getGrid(), *og);
+            if (has_int && og && !same) sim::g_cur->note = 1;
             libcall(out, [&] {
               auto res = oper * x;
               store_result(c, dst, std::move(res));
